@@ -468,7 +468,9 @@ class NCCHReader(TypeReaderCryptoBase):
                     size = exefs_range[1] - exefs_range[0]
                     files.append((SubsectionIO(base_file, exefs_range[0], size), size))
 
-                return SplitFileMerger(files, closefds=True)
+                fh = SplitFileMerger(files, closefds=True)
+                self._open_files.add(fh)
+                return fh
 
             elif section == NCCHSection.FullDecrypted:
                 return _NCCHSectionFile(self, section)
